@@ -80,11 +80,17 @@ def run_shard(shard, ctx):
             tag = ("c19", kind, D, R)
             Sig = objs.spd_batch(D, R, vi, seed, tag, diag=diag)
             mu = objs.vec_batch(D, R, vi, seed, tag)
-            p = objs.mk_pdf(kind, Sig, mu)
-            for kseed in ((0, 7) if tier == "quick" else (0, 7, 123)):
-                if not ctx.case(dict(n=n, vi=vi, key=kseed)):
+            variants = objs.pdf_variants(kind, Sig, mu, which=("fresh", "sliced_neg", "updated", "Sigma+Lambda") if (vi in (0, 100) and n == 2) else ("fresh",))
+            for (prep, mkp), kseed in [(v, k) for v in variants for k in ((0, 7) if tier == "quick" else (0, 7, 123))]:
+                if prep != "fresh" and kseed != 0:
                     continue
-                facts = dict(n=n, vi=vi)
+                if not ctx.case(dict(n=n, vi=vi, key=kseed, prep=prep)):
+                    continue
+                facts = dict(n=n, vi=vi, prep=prep)
+                with ctx.guard("prepare." + prep, facts) as g:
+                    p = mkp()
+                if not g.ok:
+                    continue
                 key = jax.random.PRNGKey(kseed)
                 # ---- recorder mode ------------------------------------------------
                 with ctx.guard("sample.call", facts) as g:
